@@ -155,13 +155,27 @@ impl ReadBackend for CachedBackend {
             // read full file, save to cache and return partial content
             match self.be.read_full(tpe, id) {
                 Ok(data) => {
-                    let range = offset as usize..(offset + length) as usize;
                     if let Err(err) = self.cache.write_bytes(tpe, id, &data.clone().into()) {
                         warn!(
                             "Error in cache backend writing {tpe:?},{id}: {}",
                             err.display_log()
                         );
                     }
+                    // the requested range must lie within the file; report an error (as a backend without
+                    // cache does) instead of panicking if the file is shorter than expected
+                    let end = u64::from(offset) + u64::from(length);
+                    if end > data.len() as u64 {
+                        return Err(RusticError::new(
+                            ErrorKind::Backend,
+                            "Cannot read `{length}` bytes at offset `{offset}` from file `{id}` of type `{tpe}`: the file has only `{size}` bytes.",
+                        )
+                        .attach_context("length", length.to_string())
+                        .attach_context("offset", offset.to_string())
+                        .attach_context("id", id.to_string())
+                        .attach_context("tpe", tpe.to_string())
+                        .attach_context("size", data.len().to_string()));
+                    }
+                    let range = offset as usize..end as usize;
                     Ok(Bytes::copy_from_slice(&data.slice(range)))
                 }
                 error => error,
